@@ -37,7 +37,7 @@ def run(rep):
         rep.coverage.update({
             "evaluations": res["n"], "distinct_nontrivial": res["n"] - res["counts"].get("err", 0) // 2,
             "rule": "every corpus statement; token/byte/structure mutants of corpus statements (truncate after a token, delete, duplicate, swap, splice from a 230-word pool, drop a bracket partner, empty a range, byte flips); "
-                    "every sequence of up to 1 (quick) / 2 (thorough) pool words behind 18 statement prefixes; deep nesting probes up to 20 KB (quick) / 1 MiB (thorough); each parsed under recover; "
+                    "every sequence of up to 1 (quick) / 2 (thorough) pool words behind 18 statement prefixes; statements of the verification grammar (checks/gen_sql_grammar.py) as they are, mutated and truncated; literal substitution (a NUMBER/STRING token of a valid statement replaced by a boundary literal of its class); deep nesting probes up to 20 KB (quick) / 1 MiB (thorough); each parsed under recover; "
                     "distinct_nontrivial counts conservatively (accepted inputs plus half of the rejected ones)",
             "samples": res["samples"], "input_distribution": res["dist"], "status_counts": res["counts"], "max_tokens": res["max_tokens"], "trusted_base": TRUSTED,
         })
